@@ -149,6 +149,7 @@ func genC02Case(t *rapid.T) C02Case {
 		c.CBExtra = extra()
 		c.CBMethod = rapid.SampledFrom([]string{"GET", "POST"}).Draw(t, "cbmethod")
 	}
+	s.Noise = rapid.IntRange(0, 2).Draw(t, "noise") == 0
 	c.SSO = s
 	return c
 }
@@ -282,7 +283,13 @@ func c02Run(c C02Case) c02Result {
 	if s.PersistFault {
 		spec.Faults = append(append([]world.Fault(nil), spec.Faults...), world.Fault{Op: "CreateAuthRequest", Kind: "error"})
 	}
+	if s.Noise {
+		spec = withNoise(spec)
+	}
 	w := mustBuild(spec)
+	if s.Noise {
+		runNoise(w, spec)
+	}
 	now := time.Now()
 	add := func(v *ev.Violation) {
 		if v != nil {
@@ -290,6 +297,9 @@ func c02Run(c C02Case) c02Result {
 		}
 	}
 	note := func(rep obs.Reply) {
+		if s.Noise && noiseLeak(rep) {
+			add(ev.V("C02/foreign-state-in-reply", "a reply carries data of an unrelated service provider / user that used the provider earlier"))
+		}
 		d := obs.Decode(rep)
 		res.kinds = append(res.kinds, d.Kind)
 		if d.Kind == obs.KindPostForm || d.Kind == obs.KindRedirectSAML {
